@@ -140,6 +140,11 @@ ANN["DepHooked"] = ovld.Dependent[Hooked, lambda v: True]
 POOL.append({"id": 10, "shape": gen.SHAPES["x"], "types": {"x": "DepIsK"}, "prio": 7, "body": "cn"})
 POOL.append({"id": 11, "shape": gen.SHAPES["x"], "types": {"x": "DepNamedK1"}, "prio": 8})
 POOL.append({"id": 12, "shape": gen.SHAPES["x"], "types": {"x": "DepHooked"}, "prio": 0})
+# classes passed as arguments (both are instances of `type`: one argument-type combination), and a wrapper that hands over
+# through the run-time helper of call_next
+VALUES["K0cls"] = K0
+VALUES["K1cls"] = K1
+POOL.append({"id": 13, "shape": gen.SHAPES["x"], "types": {"x": "O"}, "prio": 9, "body": "cnstar"})
 VALUES["[k0,k1]"] = [VALUES["k0"], VALUES["k1"]]
 VALUES["[[k1],1]"] = [[VALUES["k1"]], 1]
 SIGMA_NAMES = ["k0", "k1", "z", "1", "s", "[k0,k1]", "[[k1],1]"]
@@ -197,7 +202,10 @@ class CountModel(e2.Model):
             w.warm.clear()
             return ("accepted",)
         c = op[1]
-        was_warm = c in w.warm
+        # warm = a call with the same argument-type combination(s) succeeded since the last change (not necessarily
+        # the same value: two different classes passed as arguments are both of type `type`)
+        sig_c = tsig(VALUES[self.sigma[c]])
+        was_warm = c in w.warm or any(tsig(VALUES[self.sigma[o]]) == sig_c for o in w.warm)
         before = sum(COUNTS.values())
         snap = Counter(COUNTS)
         out = norm(p.call((VALUES[self.sigma[c]],), {}))
@@ -263,7 +271,14 @@ def sigma_for(combo):
     s = ["k0", "k1", "z", "1", "s", "boom"]
     if 5 in combo or 9 in combo:
         s += ["[k0,k1]", "[[k1],1]"]
+    if 13 in combo:
+        s += ["K0cls", "K1cls"]
     return s
+
+
+def tsig(v):
+    """The argument-type combination(s) a call involves: its class, and recursively those of list elements."""
+    return ("list", tuple(tsig(e) for e in v)) if isinstance(v, list) else type(v)
 
 
 def shard(shard, nshards, tier, seed):
